@@ -12,8 +12,11 @@ CLAIM = {
             "layout; all panic/overflow/division/bounds/unwrap/precondition obligations reachable from the layout and render entry points are "
             "discharged by abstract interpretation, by named lemmas whose side conditions are re-checked (VALID-CT, FLEX-CHILD-COUNT, FLEX-SHARE, "
             "DIV-GUARD, POISON), by two trusted data-structure invariants (TREE-IDS, SHAPE-INV) and by the stated SIZE-BOUND assumption for "
-            "additions/multiplications of sizes. Hit-testing equals painted cells, and foreign View impls, are not decided.",
-    "technique": "abstract interpretation over MIR + taint-style clamp contract (reaching definitions) + who-uses rule on the surface argument + template lemmas",
+            "additions/multiplications of sizes. CHILD-PAIRING: every renderer that takes child layouts from layout.children() (flex_render, Container, Frame, Tag) "
+            "renders child number i with layout number i - one zip of two in-order loss-free sequences, the first child layout of a single child, or two "
+            "cursors advanced once per iteration; an element-dropping or reordering adaptor on one side only is reported. That a leaf fills its whole "
+            "rectangle, and foreign View impls, are not decided.",
+    "technique": "abstract interpretation over MIR + taint-style clamp contract (reaching definitions) + who-uses rule on the surface argument + template lemmas + provenance terms of the (child, layout) pairing",
     "design_ref": "DESIGN.md §5 C10",
 }
 
@@ -182,7 +185,13 @@ def run(ctx):
         "library-precondition obligations over every body reachable from all View::layout/render impls, Layout::apply_to, FindPath::next and "
         "draw_view are discharged by abstract interpretation, by the stated SIZE-BOUND assumption (additions and multiplications of sizes), by "
         "the trusted TREE-IDS invariant of the layout store and by the POISON lemma (lock poisoning needs an earlier panic); what remains is "
-        "reported. (d) HIT-TEST — FindPath::next descends into a child exactly when the position lies in the half-open rectangle [pos, pos+size) that Layout::apply_to hands to the child's renderer, rebases the position by the child's origin and advances through all siblings otherwise. NOT decided: that a leaf's renderer fills its whole rectangle, termination of foreign View impls.")
+        "reported. (e) CHILD-PAIRING — every child renderer call whose layout comes from layout.children() (flex_render, Container, Frame, Tag; loop bodies, iterator chains "
+        "and for_each/try_for_each closures alike) pairs child i with layout i: the child sequence and children() of the renderer's own layout are zipped with only "
+        "index-preserving adaptors (iter/into_iter/map/enumerate/inspect/by_ref/peekable/fuse/copied/cloned) on either side - filter, skip, rev, step_by, take_while, "
+        "flatten .. applied to one side before the pairing shift every later child into a sibling's rectangle - or the single child gets next()/nth(0) of an "
+        "untouched children() cursor, or a children() cursor created outside the loop is advanced exactly once on every way round the loop over the children; "
+        "skipping a whole pair (continue, filter after the zip) is accepted. The layout side (one node pushed per child, in child order) is FLEX-SHAPE. "
+        "(d) HIT-TEST — FindPath::next descends into a child exactly when the position lies in the half-open rectangle [pos, pos+size) that Layout::apply_to hands to the child's renderer, rebases the position by the child's origin and advances through all siblings otherwise. NOT decided: that a leaf's renderer fills its whole rectangle, termination of foreign View impls.")
     ctx.assume("valid constraint: ct.min <= ct.max component-wise; SIZE-BOUND: every size, position and constraint component is below 2^31 so sums and products of a few of them fit in usize")
     ctx.assume("a child's reported size lies within the constraint it was given (proven for the library's own views by CLAMP-CONTRACT; foreign View impls are outside the property)")
 
@@ -279,9 +288,14 @@ def run(ctx):
     if fr is None:
         ctx.anchor("CONTAINMENT", "flex_render")
     else:
-        kids = [(bb, t) for bb, t in fr.calls() if call_matches(t, r"view::View::render$|as view::View>::render$")]
-        ok = bool(kids) and all(re.search(r"apply_to\(", expr(fr, t["args"][2])) for bb, t in kids)
-        ctx.instance("CONTAINMENT", {"fn": "flex_render", "child_surfaces": [expr(fr, t["args"][2])[:80] for bb, t in kids], "ok": ok})
+        # the loop body may be a closure (for_each / try_for_each over the pairs): captured places are read in the enclosing body's terms
+        surfs = []
+        for cb in [fr] + [x for x in prog.bodies if x.kind == "Closure" and x.closure_root == fr.path]:
+            for bb, t in cb.calls():
+                if call_matches(t, r"view::View::render$|as view::View>::render$") and len(t["args"]) == 4:
+                    surfs.append(_in_parent_terms(prog, cb, expr(cb, t["args"][2])))
+        ok = bool(surfs) and all(re.search(r"apply_to\(", e) for e in surfs)
+        ctx.instance("CONTAINMENT", {"fn": "flex_render", "child_surfaces": [e[:80] for e in surfs], "ok": ok})
         if not ok:
             ctx.violation("CONTAINMENT", fr.path, "child-surface", "flex_render draws a child on a surface that does not come from layout.apply_to(surf)", sites=[fr.loc])
 
@@ -532,6 +546,7 @@ def run(ctx):
         ctx.violation("DIV-GUARD", "image::Image::size_cells", "guard", "round_up's divisor is not guarded by the is_empty() early return", sites=[])
 
     hit_test(ctx)
+    child_pairing(ctx)
 
     def size_arith(b, o):
         return True
@@ -777,3 +792,248 @@ def hit_test(ctx):
     ctx.instance(R, {"failed_test_advances_to_sibling": ok})
     if not ok:
         ctx.violation(R, fp.path, "sibling", "a child whose rectangle does not contain the position must be followed by its sibling (`child = store[child].sibling`)", sites=[fp.loc])
+
+
+# =============================================================================================
+# (e) child number i is rendered with layout number i
+# =============================================================================================
+_RENDER_RX = r"view::View::render$|as view::View>::render$|view::View for str>::render$"
+_ITER_HEAD = r"^(?:Iterator|IntoIterator|DoubleEndedIterator|ExactSizeIterator|Itertools|FlexArray|slice|Vec|Peekable)::"
+# adaptors under which element number i of the result is element number i of the source and no element is lost
+_ALIGNED = {"into_iter", "iter", "iter_mut", "by_ref", "map", "inspect", "copied", "cloned", "peekable", "fuse", "enumerate"}
+_OPT_WRAP = {"ok_or", "ok_or_else", "unwrap", "expect", "unwrap_unchecked", "branch", "from", "into"}
+
+
+def _parse(e):
+    """'Head(a, b)suffix' -> (head, [args], suffix); None when the term does not start with a call"""
+    i = e.find("(")
+    if i <= 0 or not re.match(r"^[\w:<>&' ]+$", e[:i]):
+        return None
+    depth, j = 0, None
+    for k in range(i, len(e)):
+        if e[k] in "([{":
+            depth += 1
+        elif e[k] in ")]}":
+            depth -= 1
+            if depth == 0:
+                j = k
+                break
+    if j is None:
+        return None
+    args, cur, depth = [], "", 0
+    for ch in e[i + 1:j]:
+        if ch in "([{":
+            depth += 1
+        elif ch in ")]}":
+            depth -= 1
+        if ch == "," and depth == 0:
+            args.append(cur.strip())
+            cur = ""
+        else:
+            cur += ch
+    if cur.strip():
+        args.append(cur.strip())
+    return e[:i], args, e[j + 1:]
+
+
+def _subcall(e, name):
+    """the first sub-term `name(..)` of e, parsed; None when absent"""
+    i = e.find(name + "(")
+    return _parse(e[i:]) if i >= 0 else None
+
+
+def _chain(t):
+    """(source term, [iterator adaptors applied to it, innermost first]) of an iterator-valued term"""
+    ads = []
+    while True:
+        p = _parse(t)
+        if p is None or p[2] or not p[1] or not re.match(_ITER_HEAD, p[0]):
+            return t, ads[::-1]
+        short = p[0].split("::")[-1]
+        if p[0].startswith("FlexArray::") or (short in ("iter", "iter_mut") and not p[0].startswith("Iterator::")):
+            return t, ads[::-1]                      # the sequence itself
+        ads.append(short)
+        t = p[1][0]
+
+
+def _side(t, own, layout_side):
+    """None when the iterator term enumerates its source in order without losing an element (and, for the layout side, the source is
+    `children()` of the renderer's own layout); otherwise the shape of what is wrong"""
+    src, ads = _chain(t)
+    bad = [a for a in ads if a not in _ALIGNED]
+    if bad:
+        return "%s:%s" % ("layout-side" if layout_side else "child-side", "+".join(bad))
+    if layout_side:
+        p = _parse(src)
+        if p is None or p[2] or not p[0].endswith("Tree::children") or not re.search(r"\b%s\b" % own, p[1][0] if p[1] else ""):
+            return "layout-side:foreign-source"
+    elif "Tree::children(" in src:
+        return "child-side:layouts"
+    return None
+
+
+def _closure_site(prog, cb):
+    """(enclosing body, call terminator the closure is handed to, capture terms) of a closure body; None when not found"""
+    tag = "closure:%s[" % cb.path.split("::")[-1]
+    for pb in prog.bodies:
+        if pb.path == cb.path or not cb.path.startswith(pb.path + "::") or cb.path[len(pb.path) + 2:].count("::"):
+            continue
+        for pbb, pt in pb.calls():
+            for a in pt["args"]:
+                e = expr(pb, a)
+                if e.startswith(tag):
+                    p = _parse("c(" + e[len(tag):-1] + ")") if e.endswith("]") else None
+                    return pb, pt, (p[1] if p else [])
+    return None
+
+
+def _in_parent_terms(prog, cb, e):
+    """a closure-body term with its captures `arg1.N` replaced by the captured terms of the enclosing body"""
+    if cb.kind != "Closure":
+        return e
+    site = _closure_site(prog, cb)
+    if site is None:
+        return e
+    caps = site[2]
+    return re.sub(r"\barg1\.(\d+)\b", lambda m: caps[int(m.group(1))] if int(m.group(1)) < len(caps) else m.group(0), e)
+
+
+def child_pairing(ctx):
+    prog = ctx.prog
+    R = "CHILD-PAIRING"
+    ctx.rule(R, "every renderer that hands a child a layout taken from layout.children() pairs child number i with layout number i: both come "
+                "from one zip of two in-order, loss-free sequences (no filter/skip/rev/step_by/.. on one side only), from the first child "
+                "layout for a single child, or from two cursors advanced exactly once per iteration; skipping a whole pair is fine", floor=4)
+    for b0 in prog.bodies:
+        if not b0.file.startswith("src/") or not any(call_matches(t, _RENDER_RX) for bb, t in b0.calls()):
+            continue
+        b = inlined_private(prog, b0.path) or b0
+        own = None
+        for i in range(1, b.arg_count + 1):
+            if re.search(r"TreeView<'_, view::layout::Layout>", b.local_ty(i) or ""):
+                own = "arg%d" % i
+        cfg = None
+        sites = [(bb, t) for bb, t in b.calls() if call_matches(t, _RENDER_RX) and len(t["args"]) == 4]
+        single = []
+        for bb, t in sites:
+            V, L = expr(b, t["args"][0]), expr(b, t["args"][3])
+            it_term, outer = None, b
+            if b.kind == "Closure" and re.match(r"^arg[23]\b", L) and "Tree::children(" not in L:
+                # body of for_each / try_for_each / try_fold ..: the element is the closure's parameter, the sequence is the receiver
+                site = _closure_site(prog, b)
+                if site is not None and len(site[1]["args"]) >= 2 and re.match(_ITER_HEAD, _call_expr(site[0], site[1])):
+                    it_term, outer = expr(site[0], site[1]["args"][0]), site[0]
+                if it_term is None:
+                    continue
+                for i in range(1, outer.arg_count + 1):
+                    if re.search(r"TreeView<'_, view::layout::Layout>", outer.local_ty(i) or ""):
+                        own = "arg%d" % i
+                V = L = it_term
+            if "Tree::children(" not in L and not any("Tree::children(" in _call_expr(b, b.blocks[x]["term"]) for x in _cursor_calls(b, t["args"][3])):
+                continue                     # the renderer's own layout forwarded (Box, Option, Arc ..): no pairing made here
+            if own is None:
+                ctx.violation(R, b.path, "foreign-layout", "a child is rendered with a layout from children() of something that is not the renderer's layout argument", sites=["%s:%d" % (b.file, t["line"])])
+                continue
+            where = "%s:%d" % (b.file, t["line"])
+            z = _subcall(L, "Iterator::zip")
+            if z is not None and len(z[1]) == 2:
+                zs = "Iterator::zip(%s, %s)" % (z[1][0], z[1][1])
+                lay = [x for x in z[1] if "Tree::children(" in x]
+                shape = None
+                if zs not in V:
+                    shape = "different-sequences"
+                elif len(lay) != 1:
+                    shape = "layout-side:both-or-none"
+                else:
+                    kid = z[1][1] if lay[0] == z[1][0] and z[1][0] != z[1][1] else z[1][0]
+                    shape = _side(lay[0], own, True) or _side(kid, own, False)
+                ctx.instance(R, {"fn": b.path, "form": "zip", "children": z[1][0][:100], "layouts": z[1][1][:100], "ok": shape is None})
+                if shape:
+                    ctx.violation(R, b.path, shape, "the child sequence and layout.children() are paired after an element-dropping / reordering step on one side only "
+                                  "(%s): after the first dropped element every child is drawn with the layout of another child" % zs[:240], sites=[where])
+                continue
+            # cursor forms: the layout is Iterator::next(T) / nth(T, i) of an in-order T over children(), possibly behind ok_or / ? / unwrap / match
+            cbs = _cursor_calls(b, t["args"][3])
+            shape, sel, cur = None, None, None
+            if len(cbs) != 1:
+                shape = "lockstep" if len(cbs) > 1 else "unrecognised"      # the layout is one of several cursor positions
+            else:
+                ct_ = b.blocks[list(cbs)[0]]["term"]
+                cur = _call_expr(b, ct_)
+                p = _parse(cur)
+                if p is None or not p[0].startswith(("Iterator::", "DoubleEndedIterator::")) or not p[1]:
+                    shape = "unrecognised"
+                else:
+                    sel = (p[0].split("::")[-1], p[1])
+            indexed = False
+            if shape is None:
+                nm, args = sel
+                if nm == "next" or (nm == "nth" and len(args) == 2 and args[1] == "0"):
+                    pass
+                elif nm == "nth" and len(args) == 2 and not re.match(r"^\d+$", args[1]) and (", %s)" % args[1] in V or "[%s]" % args[1] in V):
+                    indexed = True               # children.get(i) with layout.children().nth(i): one counter on both sides
+                else:
+                    shape = "selector:%s" % nm
+                shape = shape or _side(args[0], own, True)
+            if shape is None and not indexed:
+                cfg = cfg or b.cfg()
+                loops = cfg.loops()
+                hs = [h for h, body_ in loops.items() if bb in body_]
+                # calls advancing the layout cursor: Iterator methods on the same iterator object (place), not merely the same term
+                adv = [(bb2, t2) for bb2, t2 in b.calls() if t2["args"] and re.match(_ITER_HEAD, _call_expr(b, t2)) and expr(b, t2["args"][0]) == sel[1][0]
+                       and call_matches(t2, r"::(next|nth|next_back|nth_back|last|skip|step_by|advance_by|find|position|count)$")]
+                mine = [(bb2, t2) for bb2, t2 in adv if bb2 in cbs]
+                adv = [x for x in adv if mine and (arg_place_(b, x[1]) is None or arg_place_(b, x[1]) == arg_place_(b, mine[0][1]))]
+                if not hs:
+                    single.append((bb, t, cur))
+                    if len(mine) != 1 or len(adv) != 1:
+                        shape = "cursor"
+                else:
+                    h = min(hs, key=lambda x: len(loops[x]))
+                    body_ = loops[h]
+                    inner = lambda x: min([hh for hh, bd in loops.items() if x in bd], key=lambda y: len(loops[y]), default=None)
+                    kid_next = [(bb2, t2) for bb2, t2 in b.calls() if call_matches(t2, r"::next$") and bb2 in body_ and _call_expr(b, t2) in V and "Tree::children(" not in _call_expr(b, t2)]
+                    if len(adv) != 1 or len(mine) != 1 or mine[0][0] not in body_ or inner(mine[0][0]) != h or len(kid_next) != 1 or inner(kid_next[0][0]) != h:
+                        shape = "lockstep"
+                    else:
+                        N, M = mine[0][0], kid_next[0][0]
+                        first, second = (M, N) if cfg.dominates(M, N) else (N, M)
+                        outside = set(range(len(b.blocks))) - set(body_)
+                        # every way round the loop from the first cursor's advance passes the second cursor's advance (a `continue` in between would shift the pairing)
+                        ok1 = cfg.must_pass([second], start=b.blocks[first]["term"]["t"], exits=[h], removed=outside)[0]
+                        kside = _side(_parse(_call_expr(b, kid_next[0][1]))[1][0], own, False)
+                        created = [bb2 for bb2, t2 in b.calls() if call_matches(t2, r"Tree::children$")]
+                        if not ok1 or any(c in body_ for c in created):
+                            shape = "lockstep"
+                        elif kside:
+                            shape = kside
+            form = "indexed" if indexed else ("first-child" if not any(bb in bd for bd in (cfg.loops().values() if cfg else [])) else "lock-step")
+            ctx.instance(R, {"fn": b.path, "form": form, "child": V[:100], "layout": L[:140], "ok": shape is None})
+            if shape:
+                ctx.violation(R, b.path, shape, "a child is rendered with a layout that is not provably the one recorded for it (child %s, layout %s): "
+                              "the child paints into the rectangle of another view" % (V[:100], L[:200]), sites=[where])
+        if len(single) > 1 and len({expr(b, t["args"][0]) for bb, t, c in single}) > 1 and len({c for bb, t, c in single}) == 1:
+            ctx.violation(R, b.path, "same-layout-twice", "several children are rendered with the same (first) child layout", sites=[b.loc])
+
+
+def _cursor_calls(b, operand, depth=0):
+    """blocks of the calls whose result is the operand's value, looking through `?`, payloads, moves and Option -> Result wrappers"""
+    from ..flow import origins
+    out = set()
+    for o in origins(b, operand):
+        if o[0] != "call":
+            continue
+        t2 = b.blocks[o[1]]["term"]
+        if (callee_name(t2) or "").split("::")[-1] in _OPT_WRAP and t2["args"] and depth < 6:
+            out |= _cursor_calls(b, t2["args"][0], depth + 1)
+        else:
+            out.add(o[1])
+    return out
+
+
+def arg_place_(body, t):
+    from ..flow import arg_place
+    try:
+        return arg_place(body, t, 0)
+    except Exception:
+        return None
